@@ -178,8 +178,10 @@ class Container:
         return True
 
     def __hash__(self):
-        """The hash of a container is based on its data dictionary."""
-        return hash(self._data_dictionary)
+        """The hash of a container is based on the field definitions in its
+        data dictionary (not on the order in which its field sets were merged,
+        which only shows in the merged field set's name)."""
+        return hash(frozenset(self._data_dictionary.items()))
 
     def __getattr__(self, name: str):
         """Override attribute retrieval to access pointwise and per-container
